@@ -112,7 +112,7 @@ func (f *flowGen) breakPhase() {
 		// causal aim: an observer subscribes when the target reaches this point, and the stream
 		// breaks as soon as that observer got somewhere (e.g. its first update: the collector is
 		// probably still walking its cache for it)
-		ev := rapid.SampledFrom([]string{"first", "first", "first", "first", "start", "sync"}).Draw(t, "event")
+		ev := rapid.SampledFrom([]string{"first", "first", "first", "dialed", "dialed", "dialed", "start", "sync"}).Draw(t, "event")
 		if rapid.IntRange(0, 3).Draw(t, "settle") > 0 {
 			// first let the collector take in what was sent so far (an early observer has seen a tick
 			// sent now): the break then reaches it as fast as the wire allows, not behind a backlog
